@@ -5,7 +5,7 @@ Gemini URLs according to the protocol specification.
 """
 
 from typing import NamedTuple
-from urllib.parse import urlparse, urlunparse
+from urllib.parse import unquote, urlparse, urlunparse
 
 from ..protocol.constants import DEFAULT_PORT, MAX_REQUEST_SIZE
 
@@ -111,6 +111,44 @@ def parse_url(url: str) -> ParsedURL:
         fragment=parsed.fragment or "",
         normalized=normalized,
     )
+
+
+def canonical_path(path: str) -> str:
+    """Reduce a URL path to the canonical location it denotes.
+
+    Percent-escapes are decoded, repeated slashes are collapsed and "." and
+    ".." segments are resolved (never above the root). A trailing slash is
+    kept. This is the location a static file handler ends up serving, so
+    path-based access rules must be matched against it rather than against
+    the raw spelling used in the request.
+
+    Args:
+        path: The path component of a URL.
+
+    Returns:
+        The canonical absolute path.
+
+    Examples:
+        >>> canonical_path('//app/./public/../secret.gmi')
+        '/app/secret.gmi'
+        >>> canonical_path('/%61pp/')
+        '/app/'
+    """
+    decoded = unquote(path)
+    segments: list[str] = []
+    for segment in decoded.split("/"):
+        if segment in ("", "."):
+            continue
+        if segment == "..":
+            if segments:
+                segments.pop()
+            continue
+        segments.append(segment)
+
+    result = "/" + "/".join(segments)
+    if result != "/" and decoded.endswith(("/", "/.", "/..")):
+        result += "/"
+    return result
 
 
 def validate_url(url: str) -> None:
